@@ -4,7 +4,7 @@
 (* Hll.tla / HllUnion.tla, with the logged state equal to the specification's. *)
 (* Check \subseteq property ids selects which properties' conjuncts are        *)
 (* enforced; the specification's own state always evolves by its actions.      *)
-EXTENDS HllUnion, Json, IOUtils
+EXTENDS HllFormat, Json, IOUtils
 
 CONSTANT Check
 
@@ -36,6 +36,37 @@ Sc(st, slot) ==
    cm |-> st.curMin, na |-> Cardinality(st.aux),
    v |-> (IF st.mode = "arr" THEN Value(st, slot % KOf(st)) ELSE 0),
    lgk |-> st.lgk]
+
+Pairs(e) == [i \in 1..Len(e) |-> <<e[i][1], e[i][2]>>]
+Bytes(e) == [i \in 1..Len(e) |-> e[i]]
+
+\* C12: the emitted bytes are exactly the cross-language layout of the state the sketch holds
+ImgOK(st, e) ==
+  ("img" \in DOMAIN e) =>
+    LET auxo == Pairs(e.auxo) IN
+    /\ {auxo[i] : i \in 1..Len(auxo)} = st.aux /\ Len(auxo) = Cardinality(st.aux)
+    /\ Bytes(e.img) = EncOwn(st, Bytes(e.fb), auxo)
+
+\* the specification state described by a logged full projection
+FromFull(e) ==
+  [lgk |-> e.lgk, type |-> e.t, mode |-> e.m, list |-> Pairs(e.list), listCap |-> e.cap,
+   setLg |-> e.lga, tab |-> [p \in 0..(Len(e.tab) - 1) |-> <<e.tab[p + 1][1], e.tab[p + 1][2]>>], cnt |-> e.cnt,
+   cells |-> [p \in 0..(Len(e.cells) - 1) |-> e.cells[p + 1]], curMin |-> e.cm, nacm |-> e.n,
+   aux |-> {<<e.aux[i][1], e.aux[i][2]>> : i \in 1..Len(e.aux)}, ooo |-> e.ooo, hipPos |-> e.hp]
+
+\* what a reader must rebuild from an image of the given variant
+Decoded(st, v) ==
+  CASE st.mode = "list" -> [st EXCEPT !.listCap = Pow2(v.lgarr)]
+    [] st.mode = "set"  -> IF v.compact
+                           THEN [st EXCEPT !.tab = InsertAll(EmptyTab(st.setLg), st.setLg, SortCoupons(RangeOf(st.tab) \ {NoC}))]
+                           ELSE st
+    [] st.mode = "arr"  -> [st EXCEPT !.hipPos = IF st.ooo THEN FALSE ELSE @]
+
+EncVariant(st, e) ==
+  LET v == e.variant IN
+  CASE st.mode = "list" -> EncList(st, v.compact, v.lgarr)
+    [] st.mode = "set"  -> EncSet(st, v.compact)
+    [] st.mode = "arr"  -> EncArr(st, Bytes(e.fb), v.compact, Pairs(e.auxo), v.lgaux, Pairs(e.auxtab))
 
 NonDecreasing(s) == \A i \in 1..(Len(s) - 1) : s[i] <= s[i + 1]
 
@@ -88,8 +119,22 @@ TrUpd3 ==
 TrChk ==
   /\ IsEv("Chk")
   /\ (On("C02") \/ On("C03")) => Full(obj[Ev.id]) = Ev.st
+  /\ On("C12") => ImgOK(obj[Ev.id], Ev)
   /\ ObsOK(obj[Ev.id], Ev.o)
   /\ UNCHANGED <<obj, uni>>
+
+\* C13: an image of some cross-language variant, built by the harness from the abstract state abs.
+\* The specification's own encoder must produce the same bytes for that variant (so the image is a
+\* valid encoding of abs), and the library must decode it to exactly that state.
+TrLoad ==
+  /\ IsEv("Load")
+  /\ LET a == FromFull(Ev.abs) IN
+     /\ (Ev.abs.m = "arr" /\ Ev.abs.t = 4 /\ ~Ev.variant.compact /\ a.aux # {}) => AuxTabOK(a, Ev.variant.lgaux, Pairs(Ev.auxtab))
+     /\ Bytes(Ev.img) = EncVariant(a, Ev)
+     /\ obj' = Put(obj, Ev.id, Decoded(a, Ev.variant))
+  /\ On("C13") => (Ev.ok /\ Full(obj'[Ev.id]) = Ev.st)
+  /\ (Ev.ok => ObsOK(obj'[Ev.id], Ev.o))
+  /\ UNCHANGED uni
 
 \* to := deserialize(serialize(id)); the image must have the exact size, the copy the
 \* same observable state and the same estimates/bounds bit for bit
@@ -149,7 +194,7 @@ TrUToSk3 ==
 \* a panic on a valid operation is never explainable
 TrPanic == IsEv("Panic") /\ FALSE /\ UNCHANGED <<obj, uni>>
 
-TNext == TrRun \/ TrNew \/ TrUpd \/ TrUpd3 \/ TrChk \/ TrRT \/ TrUNew \/ TrUUpd \/ TrUVal
+TNext == TrRun \/ TrNew \/ TrUpd \/ TrUpd3 \/ TrChk \/ TrLoad \/ TrRT \/ TrUNew \/ TrUUpd \/ TrUVal
          \/ TrUReset \/ TrUChk \/ TrUToSk3 \/ TrPanic
 TSpec == TInit /\ [][TNext]_tvars
 
